@@ -75,6 +75,9 @@ where
         self.status = info.status;
         let is_infeasible = info.status.is_infeasible();
 
+        #[cfg(feature = "verif")]
+        info.verif_emit(crate::verif::IterEventKind::Final, variables, None);
+
         if is_infeasible {
             self.obj_val = T::nan();
             self.obj_val_dual = T::nan();
